@@ -27,12 +27,18 @@ def _raises_parse_error(stmts) -> bool:
 
 
 def open_container(ci: ClassInfo) -> Optional[str]:
-    """name of the instance container that start() pushes to and end() pops from"""
+    """name of the instance container that start() pushes to and end() pops from (aliases expanded)"""
     st, en = ci.own_func("start"), ci.own_func("end")
     if st is None or en is None:
         return None
-    pushes = {text(c.func.value) for c in own_nodes(st) if isinstance(c, ast.Call) and isinstance(c.func, ast.Attribute) and c.func.attr == "append" and text(c.func.value).startswith("self.")}
-    pops = {text(c.func.value) for c in own_nodes(en) if isinstance(c, ast.Call) and isinstance(c.func, ast.Attribute) and c.func.attr == "pop" and text(c.func.value).startswith("self.")}
+    sx, exn = Expander(st), Expander(en)
+    pushes = {sx.t(c.func.value) for c in own_nodes(st) if isinstance(c, ast.Call) and isinstance(c.func, ast.Attribute) and c.func.attr == "append" and sx.t(c.func.value).startswith("self.")}
+    pops = {exn.t(c.func.value) for c in own_nodes(en) if isinstance(c, ast.Call) and isinstance(c.func, ast.Attribute) and c.func.attr == "pop" and exn.t(c.func.value).startswith("self.")}
+    for d in own_nodes(en):
+        if isinstance(d, ast.Delete):
+            for t in d.targets:
+                if isinstance(t, ast.Subscript) and exn.t(t.value).startswith("self."):
+                    pops.add(exn.t(t.value))
     both = pushes & pops
     return sorted(both)[0] if both else None
 
@@ -68,21 +74,23 @@ def p_rules(p: Project, rep: Report):
             else:
                 rep.check("P-R1", "TreeBuilder.end:compares-innermost-open-tag", False, "no open-tag bookkeeping recognised (no instance container pushed in start() and popped in end()): the closing tag cannot be compared with the innermost open element", ploc(p, en))
         else:
-            guards = []
-            for n in cfg.nodes:
-                if n.kind == "test" and _raises_parse_error(n.stmt.body):
-                    t = norm(n.stmt.test)
-                    parts = [text(v) for v in t.values] if isinstance(t, ast.BoolOp) and isinstance(t.op, ast.Or) else [text(t)]
-                    has_cmp = any(x in (f"{cont}[-1] != {tagp}", f"{tagp} != {cont}[-1]") for x in parts)
-                    has_empty = any(x in (f"not {cont}", f"len({cont}) == 0") for x in parts)
-                    if has_cmp and has_empty:
-                        guards.append(n.id)
-                    elif has_cmp and not has_empty:
-                        guards.append(n.id)  # IndexError on an empty stack is not a silent accept
-            ok = bool(guards) and bool(supers) and all(cfg.dominated_by(s.id, guards) for s in supers)
-            rep.check("P-R1", "TreeBuilder.end:compares-innermost-open-tag", ok, f"no raise guarded by `not {cont} or {cont}[-1] != {tagp}` dominates the delegated end(): a missing, misspelled, transposed or stray end tag is silently accepted" if not ok else "", ploc(p, en))
-            pops = cfg.nodes_calling(lambda c: isinstance(c.func, ast.Attribute) and c.func.attr == "pop" and text(c.func.value) == cont)
-            ok = bool(pops) and all(cfg.dominated_by(s.id, [x.id for x in pops]) for s in supers) and all(not c.args for n in pops for c in n.calls() if isinstance(c.func, ast.Attribute) and c.func.attr == "pop")
+            from . import paths as PT
+
+            enx = Expander(en)
+            epaths = PT.enumerate_paths(en, expander=enx)
+            ecfg = epaths.cfg
+            esupers = ecfg.nodes_calling(lambda c: is_super_call(c, "end") or text(c.func) in ("ET.TreeBuilder.end",))
+            a, b = sorted([f"{cont}[-1]", tagp])
+            goal = PT.atom(f"{a} == {b}")
+            ok = bool(esupers)
+            for sn in esupers:
+                for pth in epaths:
+                    cb = pth.conds_before(sn.id)
+                    if cb is not None and PT.implies(cb, goal) is False:
+                        ok = False
+            rep.check("P-R1", "TreeBuilder.end:compares-innermost-open-tag", ok, f"a path reaches the delegated end() without having established `{cont}[-1] == {tagp}`: a missing, misspelled, transposed or stray end tag is silently accepted" if not ok else "", ploc(p, en))
+            pops = [n for n in ecfg.nodes if any(isinstance(c.func, ast.Attribute) and c.func.attr == "pop" and enx.t(c.func.value) == cont and not c.args for c in n.calls())]
+            ok = bool(pops) and all(ecfg.dominated_by(sn.id, [x.id for x in pops]) for sn in esupers)
             rep.check("P-R1", "TreeBuilder.end:pops-innermost", ok, "the innermost open tag is not popped exactly when an element is closed" if not ok else "", ploc(p, en))
         for s in supers:
             c = [x for x in s.calls() if is_super_call(x, "end") or text(x.func) == "ET.TreeBuilder.end"][0]
@@ -92,7 +100,8 @@ def p_rules(p: Project, rep: Report):
         tagp = params_of(st)[1]
         cfg = CFG(st)
         supers = cfg.nodes_calling(lambda c: is_super_call(c, "start"))
-        pushes = cfg.nodes_calling(lambda c: isinstance(c.func, ast.Attribute) and c.func.attr == "append" and text(c.func.value) == cont and c.args and text(c.args[0]) == tagp)
+        stx = Expander(st)
+        pushes = cfg.nodes_calling(lambda c: isinstance(c.func, ast.Attribute) and c.func.attr == "append" and stx.t(c.func.value) == cont and c.args and stx.t(c.args[0]) == tagp)
         ok = bool(pushes) and bool(supers) and cfg.must_pass_through([cfg.exit.id], [x.id for x in pushes])
         rep.check("P-R1", "TreeBuilder.start:pushes-started-tag", ok, "start() does not record the tag it opens on every path" if not ok else "", ploc(p, st))
     # no bypass: calls to the underlying end() outside the override
@@ -108,36 +117,50 @@ def p_rules(p: Project, rep: Report):
     if cl is None:
         rep.check("P-R2", "TreeBuilder.close:overridden", False, "close() is not overridden: a document cut off before its final end tag (even in the middle of a token, which finditer() skips silently) returns a partial tree", ploc(p, ci.node))
     else:
-        cfg = CFG(cl)
-        supers = cfg.nodes_calling(lambda c: is_super_call(c, "close"))
-        guards = [n.id for n in cfg.nodes if n.kind == "test" and _raises_parse_error(n.stmt.body) and cont is not None and text(norm(n.stmt.test)) in (cont, f"len({cont})", f"0 < len({cont})", f"len({cont}) != 0")]
-        ok = bool(guards) and bool(supers) and all(cfg.dominated_by(s.id, guards) for s in supers)
+        from . import paths as PT
+
+        cpaths = PT.enumerate_paths(cl, expander=Expander(cl))
+        ccfg = cpaths.cfg
+        supers = ccfg.nodes_calling(lambda c: is_super_call(c, "close"))
+        ok = bool(supers) and cont is not None
+        if ok:
+            goal = PT.atom(f"bool({cont})", False)
+            for sn in supers:
+                for pth in cpaths:
+                    cb = pth.conds_before(sn.id)
+                    if cb is not None and PT.implies(cb, goal) is False:
+                        ok = False
         rep.check("P-R2", "TreeBuilder.close:refuses-open-elements", ok, "close() hands back the tree although elements are still open" if not ok else "", ploc(p, cl))
     # OFXTree.parse returns only parser.close()
-    parse = p.get_function(PARSER, "OFXTree.parse").node
-    pcfg = CFG(parse)
-    reach = Reaching(pcfg)
-    rets = [n for n in pcfg.nodes if n.kind == "return"]
-    ok = bool(rets)
-    for rn in rets:
-        vals = [text(v) for v in resolve_values(rn.stmt.value, rn, reach)] if rn.stmt.value is not None else ["None"]
-        # self._root = parser.close(); return self._root
-        if vals == ["self._root"]:
-            st_ = [s for s in own_statements(parse) if isinstance(s, ast.Assign) and text(s.targets[0]) == "self._root"]
-            vals = [text(s.value) for s in st_]
-        if not vals or any(v != "parser.close()" for v in vals):
+    from . import paths as PT2
+    from .flat import flat as _flat
+
+    tree_ci = p.get_class(PARSER, "OFXTree")
+    parse0 = p.get_function(PARSER, "OFXTree.parse").node
+    parse = _flat(p, PARSER, parse0, tree_ci, keep=("_read",))
+    rps, ppaths = PT2.return_paths(parse, expander=Expander(parse))
+    pcfg = ppaths.cfg
+    pparam = params_of(parse0)[2] if len(params_of(parse0)) > 2 else "parser"
+    ok = bool(rps)
+    for pth, rtxt, sc in rps:
+        # `self._root = X.close(); return self._root`
+        if rtxt == "self._root":
+            sets = [pcfg.nodes[i].stmt for i in pth.nodes if isinstance(pcfg.nodes[i].stmt, ast.Assign) and text(pcfg.nodes[i].stmt.targets[0]) == "self._root"]
+            rtxt = text(PT2.value_on_path(pth, pcfg, sets[-1].value, upto=len(pth.nodes) - 1)) if sets else rtxt
+        if not rtxt.endswith(".close()"):
             ok = False
-    rep.check("P-R2", "OFXTree.parse:returns-parser.close()", ok, "parse() can return a root that did not come from parser.close()" if not ok else "", ploc(p, parse))
-    feeds = pcfg.nodes_calling(lambda c: text(c.func) == "parser.feed")
-    closes = pcfg.nodes_calling(lambda c: text(c.func) == "parser.close")
+    rep.check("P-R2", "OFXTree.parse:returns-parser.close()", ok, "parse() can return a root that did not come from the builder's close()" if not ok else "", ploc(p, parse0))
+    feeds = pcfg.nodes_calling(lambda c: isinstance(c.func, ast.Attribute) and c.func.attr == "feed")
+    closes = pcfg.nodes_calling(lambda c: isinstance(c.func, ast.Attribute) and c.func.attr == "close" and not c.args)
     ok = bool(feeds) and bool(closes) and all(pcfg.dominated_by(c.id, [f.id for f in feeds]) for c in closes)
-    rep.check("P-R2", "OFXTree.parse:feed-then-close", ok, "" if ok else "close() is not preceded by feed() on every path", ploc(p, parse))
+    rep.check("P-R2", "OFXTree.parse:feed-then-close", ok, "" if ok else "close() is not preceded by feed() on every path", ploc(p, parse0))
 
     rep.rule("P-R3", "a start tag after the root element was closed raises: end() records that the outermost element closed, start() raises ParseError when it did")
     flag = None
     if en is not None and cont is not None:
+        enx2 = Expander(en)
         for s in own_statements(en):
-            if isinstance(s, ast.If) and text(norm(s.test)) in (f"not {cont}", f"len({cont}) == 0"):
+            if isinstance(s, ast.If) and text(norm(enx2.x(s.test))) in (f"not {cont}", f"len({cont}) == 0"):
                 for b in s.body:
                     if isinstance(b, ast.Assign) and text(b.targets[0]).startswith("self.") and isinstance(b.value, ast.Constant) and b.value.value is True:
                         flag = text(b.targets[0])
@@ -159,30 +182,67 @@ def p_rules(p: Project, rep: Report):
         ok = inits.get(cont) == "[]" and inits.get(flag) == "False"
         rep.check("P-R3", "TreeBuilder.__init__:fresh-state", ok, f"builder state starts as {inits}" if not ok else "", ploc(p, init))
 
-    rep.rule("P-R4", "text after an end tag and non-blank tail text raise ParseError; feed() re-raises ParseError (never swallows it)")
-    feed = ci.own_func("feed")
+    rep.rule("P-R4", "text after an end tag and non-blank tail text raise ParseError: every path of feed() (helpers inlined) that reaches _feedmatch implies that the groomed tail of the match is empty; handlers in feed() re-raise; _feedmatch raises for an end tag that carries data and routes end tags to end(<name without '/'>)")
+    import re as _re
+    from . import paths as PT
+    from .flat import flat
+
+    feed0 = ci.own_func("feed")
     fm = ci.own_func("_feedmatch")
-    if feed is None or fm is None:
+    if feed0 is None or fm is None:
         raise AnalysisError("TreeBuilder.feed/_feedmatch not found")
-    cfg = CFG(feed)
-    calls_fm = cfg.nodes_calling(lambda c: text(c.func) == "self._feedmatch")
-    ex = Expander(feed)
-    guards = [n.id for n in cfg.nodes if n.kind == "test" and _raises_parse_error(n.stmt.body) and ex.t(n.stmt.test) in ("self._groomstring(groupdict['tail'])", "self._groomstring(match.group('tail'))", "self._groomstring(match.groupdict()['tail'])")]
-    ok = bool(guards) and bool(calls_fm) and all(cfg.dominated_by(c.id, guards) for c in calls_fm)
-    rep.check("P-R4", "feed:non-blank-tail-raises", ok, "text after an element's end tag (tail) is silently dropped" if not ok else "", ploc(p, feed))
-    for t in [s for s in own_statements(feed) if isinstance(s, ast.Try)]:
+    feed = flat(p, PARSER, feed0, ci, keep=("_feedmatch", "_groomstring", "_start"))
+    fx = Expander(feed)
+    fpaths = PT.enumerate_paths(feed, expander=fx)
+    fcfg = fpaths.cfg
+    calls_fm = fcfg.nodes_calling(lambda c: text(c.func) == "self._feedmatch")
+    tail_atoms = [a for a in PT.atoms_of(fpaths) if _re.fullmatch(r"bool\(self\._groomstring\(.*(\['tail'\]|group\('tail'\))\)\)", a)]
+    if not calls_fm:
+        raise AnalysisError("P-R4: feed() never calls _feedmatch")
+    if not tail_atoms:
+        rep.check("P-R4", "feed:non-blank-tail-raises", False, "the tail group of a match is never tested: text after an element's end tag is silently dropped", ploc(p, feed0))
+    else:
+        goal = PT.atom(tail_atoms[0], False)
+        ok = True
+        for cn in calls_fm:
+            for pth in fpaths:
+                cb = pth.conds_before(cn.id)
+                if cb is not None and PT.implies(cb, goal) is False:
+                    ok = False
+        rep.check("P-R4", "feed:non-blank-tail-raises", ok, "a path hands the match to _feedmatch although its tail text is not blank: text after an element's end tag is silently dropped" if not ok else "", ploc(p, feed0))
+    for t in [s_ for s_ in own_statements(feed) if isinstance(s_, ast.Try)]:
         for h in t.handlers:
             ok = any(isinstance(x, ast.Raise) for x in ast.walk(h))
             rep.check("P-R4", "feed:handler-reraises", ok, "feed() swallows the ParseError" if not ok else "", ploc(p, h))
     tagp, textp = params_of(fm)[1], params_of(fm)[2]
-    ok = False
-    for s in own_statements(fm):
-        if isinstance(s, ast.If) and text(s.test) == f"{tagp}.startswith('/')":
-            inner = [b for b in s.body if isinstance(b, ast.If) and text(b.test) == textp and _raises_parse_error(b.body)]
-            ends = [c for c in ast.walk(ast.Module(body=s.body, type_ignores=[])) if isinstance(c, ast.Call) and text(c.func) == "self.end" and c.args and text(c.args[0]) == f"{tagp}[1:]"]
-            starts = [c for c in ast.walk(ast.Module(body=s.orelse, type_ignores=[])) if isinstance(c, ast.Call) and text(c.func) == "self._start"]
-            ok = bool(inner) and bool(ends) and bool(starts) and s.body.index(inner[0]) < min(i for i, b in enumerate(s.body) if any(x is ends[0] for x in ast.walk(b)))
-    rep.check("P-R4", "_feedmatch:end-tag-with-text-raises", ok, "data after an end tag is not rejected, or end tags are not routed to end(<name without '/'>)" if not ok else "", ploc(p, fm))
+    fmf = flat(p, PARSER, fm, ci, keep=("_start", "_groomstring"))
+    mpaths = PT.enumerate_paths(fmf, expander=Expander(fmf))
+    mcfg = mpaths.cfg
+    is_end = f"bool({tagp}.startswith('/'))"
+    has_text = f"bool({textp})"
+    ends = mcfg.nodes_calling(lambda c: text(c.func) == "self.end")
+    starts_ = mcfg.nodes_calling(lambda c: text(c.func) == "self._start")
+    ok = bool(ends) and bool(starts_)
+    why = "end tags are not routed to end() / start tags to _start()"
+    if ok:
+        for en_ in ends:
+            for c in en_.calls():
+                if text(c.func) == "self.end" and not (c.args and text(c.args[0]) == f"{tagp}[1:]"):
+                    ok, why = False, f"an end tag is closed as {text(c.args[0]) if c.args else None}, not as the tag name without its '/'"
+            for pth in mpaths:
+                cb = pth.conds_before(en_.id)
+                if cb is None:
+                    continue
+                if PT.implies(cb, PT.atom(is_end)) is False:
+                    ok, why = False, "end() is reached for a tag that is not an end tag"
+                if PT.implies(cb, PT.atom(has_text, False)) is False:
+                    ok, why = False, "an end tag that carries data is closed instead of being rejected: text after an end tag is silently dropped"
+        for sn in starts_:
+            for pth in mpaths:
+                cb = pth.conds_before(sn.id)
+                if cb is not None and PT.implies(cb, PT.atom(is_end, False)) is False:
+                    ok, why = False, "_start() is reached for an end tag"
+    rep.check("P-R4", "_feedmatch:end-tag-with-text-raises", ok, why if not ok else "", ploc(p, fm))
 
 
 # --------------------------------------------------------------------------
@@ -252,29 +312,61 @@ def x_rules(p: Project, rep: Report):
             cs = {chr(i) for i in range(128)} - {chr(first[1])}
     ok = cs is not None and "<" not in cs and {"&", ">", "a", " ", "]"} <= cs
     rep.check("X-R4", "regex:text-class", ok, "the data class is not 'everything but <'" if not ok else "", r.where)
-    feed = ci.own_func("feed")
-    ex = Expander(feed)
-    defs = local_defs(feed)
-    tdefs = [text(d.value) for d in defs.get("text", []) if d.kind == "assign"]
-    ok = "self._groomstring(groupdict['text'])" in tdefs and "cdata or text" in tdefs
-    cdefs = [text(d.value) for d in defs.get("cdata", []) if d.kind == "assign"]
-    ok = ok and cdefs == ["groupdict['cdata']"]
-    rep.check("X-R4", "feed:text-trimmed-cdata-verbatim", ok, f"text is {tdefs}, cdata is {cdefs}" if not ok else "", ploc(p, feed))
-    gs = ci.own_func("_groomstring")
-    gp = params_of(gs)[0]
-    body = [text(s) for s in gs.body if not (isinstance(s, ast.Expr) and isinstance(s.value, ast.Constant))]
-    ok = body[:1] == [f"{gp} = ({gp} or '').strip()"] and any(isinstance(s, ast.If) and text(s.test) == gp and any(isinstance(b, ast.Return) and text(b.value) == gp for b in s.body) for s in gs.body) and isinstance(gs.body[-1], ast.Return) and text(gs.body[-1].value) == "None"
-    rep.check("X-R4", "_groomstring:strip-or-None", ok, "" if ok else "_groomstring does not strip surrounding whitespace and map blank to None", ploc(p, gs))
+    import re as _re
+    from . import paths as PT
+    from .flat import flat
+
+    feed0 = ci.own_func("feed")
+    feed = flat(p, PARSER, feed0, ci, keep=("_feedmatch", "_groomstring", "_start"))
+    fx = Expander(feed)
+    fpaths = PT.enumerate_paths(feed, expander=fx)
+    fcfg = fpaths.cfg
+    G = r"(match\.groupdict\(\)|\w+)"
+    seen_call = False
+    for cn in fcfg.nodes:
+        for c in cn.calls():
+            if text(c.func) != "self._feedmatch" or len(c.args) != 3:
+                continue
+            for pth in fpaths:
+                if cn.id not in pth.marks:
+                    continue
+                idx = pth.nodes.index(cn.id)
+                vals = [text(PT.value_on_path(pth, fcfg, a, upto=idx)) for a in c.args]
+                seen_call = True
+                ok_tag = _re.fullmatch(G + r"\['tag'\]", vals[0]) is not None or vals[0] == "match.group('tag')"
+                ok_close = _re.fullmatch(G + r"\['closetag'\]", vals[2]) is not None or vals[2] == "match.group('closetag')"
+                ok_text = _re.fullmatch(G + r"\['cdata'\] or self\._groomstring\(" + G + r"\['text'\]\)", vals[1]) is not None
+                rep.check("X-R4", "feed:passes-own-groups", bool(ok_tag and ok_close), f"feed() hands tag={vals[0][:40]}, closetag={vals[2][:40]} to _feedmatch; expected the match's own 'tag' and 'closetag' groups" if not (ok_tag and ok_close) else "", ploc(p, feed0))
+                rep.check("X-R4", "feed:text-trimmed-cdata-verbatim", bool(ok_text), f"the data handed on is {vals[1][:80]}; expected <cdata group, verbatim> or _groomstring(<text group>)" if not ok_text else "", ploc(p, feed0))
+    if not seen_call:
+        raise AnalysisError("X-R4: feed() does not call self._feedmatch(tag, text, closetag)")
+    gs0 = ci.own_func("_groomstring")
+    gs = flat(p, PARSER, gs0, ci)
+    gp = params_of(gs0)[0]
+    rps, _gp = PT.return_paths(gs, expander=Expander(gs))
+    ok, why = bool(rps), "never returns"
+    some_value = False
+    for pth, rtxt, sc in rps:
+        if rtxt == "None":
+            continue
+        base_ok = rtxt in (f"({gp} or '').strip()", f"{gp}.strip()")
+        if not base_ok:
+            ok, why = False, f"a path returns {rtxt[:50]}: data is not whitespace-trimmed (or is altered)"
+            continue
+        some_value = True
+        if sc.get(f"bool({rtxt})") is not True:
+            ok, why = False, "a blank string is returned instead of None"
+    if ok and not some_value:
+        ok, why = False, "_groomstring never returns the stripped string"
+    rep.check("X-R4", "_groomstring:strip-or-None", ok, why if not ok else "", ploc(p, gs0))
     stf = ci.own_func("_start")
+    sx_ = Expander(stf)
     datas = [cc for cc in own_nodes(stf) if isinstance(cc, ast.Call) and text(cc.func) == "self.data"]
-    ok = bool(datas) and all(text(cc.args[0]) == params_of(stf)[2] for cc in datas)
+    ok = bool(datas) and all(sx_.t(cc.args[0]) == params_of(stf)[2] for cc in datas)
     rep.check("X-R4", "_start:data-unmodified", ok, "" if ok else "element data is altered before it is handed to the tree", ploc(p, stf))
-    fm_calls = [cc for cc in own_nodes(feed) if isinstance(cc, ast.Call) and text(cc.func) == "self._feedmatch"]
-    ok = bool(fm_calls) and all([text(a) for a in cc.args] == ["tag", "text", "closetag"] for cc in fm_calls) and [text(d.value) for d in defs.get("tag", []) if d.kind == "assign"] == ["groupdict['tag']"] and [text(d.value) for d in defs.get("closetag", []) if d.kind == "assign"] == ["groupdict['closetag']"]
-    rep.check("X-R4", "feed:passes-own-groups", ok, "" if ok else "feed() does not hand (tag, text, closetag) of the match to _feedmatch", ploc(p, feed))
-    loops = [s for s in own_statements(feed) if isinstance(s, ast.For)]
-    ok = bool(loops) and text(loops[0].iter) == f"self.regex.finditer({params_of(feed)[1]})"
-    rep.check("X-R4", "feed:iterates-all-matches", ok, "" if ok else "feed() does not iterate self.regex.finditer(data)", ploc(p, feed))
+    loops = [s_ for s_ in own_statements(feed) if isinstance(s_, ast.For)]
+    ok = bool(loops) and fx.t(loops[0].iter) == f"self.regex.finditer({params_of(feed0)[1]})"
+    rep.check("X-R4", "feed:iterates-all-matches", ok, "" if ok else "feed() does not iterate self.regex.finditer(data)", ploc(p, feed0))
 
     rep.rule("X-R6", "leaf vs aggregate is decided by presence of data only; every element is started once; a leaf is closed exactly once whether or not its end tag was matched; an empty aggregate with its end tag in the same match is closed; nothing else is closed in _start")
     tagp, textp, closep = params_of(stf)[1:4]
